@@ -775,3 +775,91 @@ func init() {
 		},
 	}
 }
+
+func init() {
+	props["C08"] = &propDef{
+		ID: "C08",
+		Anchored: []string{"tensor.Sum", ").Sum", ").Max", ").Min", ").Reduce", "StdEng).reduce", "OptimizedReduce", "prepReduce", "ReduceFirst", "ReduceLast", "ReduceDefault", "execution.Sum", "execution.Max", "execution.Min", "execution.Argmax", "execution.Argmin",
+			"argmaxDenseTensor", "argminDenseTensor", "tensor.Argmax", "tensor.Argmin", "execution.Reduce", "execution.reduce", "MonotonicSum", "MonotonicMax", "MonotonicMin"},
+		Bounds: map[string]interface{}{"elements": "symbolic (ties, negatives, wrap-around inside); integer sums in wrapping bit-vectors; float sums in ring mode (exact integers); float max/min and arg-reductions in the FP theory with NaN assumed away",
+			"shapes": "quick (3), (2,3), (3,1), (2,3,2), (2,2,2,2); thorough adds (4), (3,2), (1,3), (2,2,3), (3,2,2), (2,1,2,2)", "axes": "every non-empty subset of axes for Sum/Max/Min; every single axis and all-axes for Argmax/Argmin",
+			"layouts": "C, T, S, SS, M", "generic_reduce": "Dense.Reduce with an uninterpreted binary function (fold seeded with the default value or the first element accepted)"},
+		Instances: func(tier string, seed int64) []Instance {
+			var out []Instance
+			shapes := [][]int{{3}, {2, 3}, {3, 1}, {2, 3, 2}, {2, 2, 2, 2}}
+			if tier == "thorough" {
+				shapes = append(shapes, []int{4}, []int{3, 2}, []int{1, 3}, []int{2, 2, 3}, []int{3, 2, 2}, []int{2, 1, 2, 2})
+			}
+			n := 0
+			for _, sh := range shapes {
+				r := len(sh)
+				for mask := 1; mask < (1 << uint(r)); mask++ {
+					var along []int
+					for i := 0; i < r; i++ {
+						if mask&(1<<uint(i)) != 0 {
+							along = append(along, i)
+						}
+					}
+					for _, op := range []string{"Sum", "Max", "Min"} {
+						for li, la := range opndLayouts {
+							if !layoutOK(sh, la) {
+								continue
+							}
+							for di, dt := range ordDtypes {
+								n++
+								if tier == "quick" && !(la == "C" && r <= 3 && len(along) == 1) && (n+li+di)%7 != 0 {
+									continue
+								}
+								if tier == "thorough" && r == 4 && (n+di)%3 != 0 {
+									continue
+								}
+								isF := dt == "float32" || dt == "float64"
+								if tier == "quick" && isF && op != "Sum" && prodInts(sh) > 6 {
+									continue // FP-theory folds over more than 6 elements exceed the quick time limit: thorough tier
+								}
+								in := mkInst("vhC08Reduce", map[string]interface{}{"dtype": dt, "op": op, "shape": sh, "along": along, "la": la, "api": []string{"method", "func"}[n%2]}, "dtype", "op", "shape", "along", "la")
+								in.Ring = op == "Sum" && (dt == "float32" || dt == "float64")
+								out = append(out, in)
+							}
+						}
+					}
+				}
+				for axis := -1; axis < r; axis++ {
+					for _, op := range []string{"Argmax", "Argmin"} {
+						for li, la := range opndLayouts {
+							if !layoutOK(sh, la) {
+								continue
+							}
+							for di, dt := range ordDtypes {
+								n++
+								if tier == "quick" && !(la == "C" && r <= 2) && (n+li+di)%5 != 0 {
+									continue
+								}
+								if tier == "quick" && (dt == "float32" || dt == "float64") && prodInts(sh) > 6 {
+									continue
+								}
+								out = append(out, mkInst("vhC08Arg", map[string]interface{}{"dtype": dt, "op": op, "shape": sh, "axis": axis, "la": la, "api": []string{"method", "func"}[n%2]}, "dtype", "op", "shape", "axis", "la"))
+							}
+						}
+					}
+				}
+				for axis := 0; axis < r; axis++ {
+					for _, la := range opndLayouts {
+						if layoutOK(sh, la) && (tier == "thorough" || r <= 3) {
+							out = append(out, mkInst("vhC08Generic", map[string]interface{}{"shape": sh, "axis": axis, "la": la}, "shape", "axis", "la"))
+						}
+					}
+				}
+			}
+			return out
+		},
+	}
+}
+
+func prodInts(s []int) int {
+	p := 1
+	for _, d := range s {
+		p *= d
+	}
+	return p
+}
